@@ -22,6 +22,13 @@ def r_probe_stop(F, V):
     n = 0
     for p, body in F.bodies.items():
         mv = [i for i, t in body.calls() if (callee_path(t) or "").endswith("ProbeSeq::move_next")]
+        if not mv and not p.endswith("ProbeSeq::move_next"):
+            # the step written out in place (move_next inlined): a store that advances ProbeSeq.stride
+            for i, k, st in body.stmts():
+                if st["k"] == "assign" and st["rv"]["k"] != "aggregate":
+                    lf = last_field(st["p"])
+                    if lf and lf["name"] == "stride" and (lf.get("adt") or "").endswith("ProbeSeq") and i not in mv:
+                        mv.append(i)
         if not mv:
             continue
         loops = [(h, blocks) for h, blocks in body.natural_loops() if any(m in blocks for m in mv)]
